@@ -300,6 +300,14 @@ pub fn run_history(h: &History) -> Result<String, Violation> {
                     commit_at[*t] = pos;
                 }
                 Ev::Maint => {
+                    // (no worker threads: before the write stall of 4 sealed memtables is reached, the queued flushes are run)
+                    {
+                        use lsm_tree::AbstractTree;
+                        while z.inner().tree.sealed_memtable_count() >= 3 {
+                            let Some(idx) = db.inner().verif_pending().iter().position(|m| m.contains("Flush")) else { break };
+                            db.inner().verif_step(idx).map_err(e)?;
+                        }
+                    }
                     z.inner().insert("m", "1").map_err(e)?;
                     z.inner().rotate_memtable().map_err(e)?;
                 }
